@@ -131,7 +131,10 @@ def _eval_only(ctx, case):
 def main(tier, seed):
     eng = engine.Engine(PROP, tier, seed, "fault_enumeration")
     engine.selftest(eng)
-    S = scenarios(eng.local_ctx(), tier)
+    S = engine.scenarios(eng, lambda: scenarios(eng.local_ctx(), tier))
+    S = [sc for sc in S if sc["pre"] is not None]
+    if not S:
+        raise engine.HarnessError("no scenario could be prepared: " + str(eng.notes.get("skipped_scenarios")))
     cases = [{"sc": sc, "dense": tier == "thorough" and sc["name"] in ("flat-1-prior", "nested-both-exist", "no-history")} for sc in S]
     res = eng.pmap(work, cases, chunksize=1)
     states = evals = 0
